@@ -13,8 +13,8 @@ PROOF_FILES = ["Properties/C03.v"]
 PCRMAX = (2 ** 33) * 300
 RULE = ("random histories of 1..60 setter calls (14 setters of packet/adaptationfield.go + SetAdaptationField) from random "
         "well-formed starts (adaptation_field_length 1..183, with/without payload, random subsets of optional fields, serialised "
-        "by the Coq Spec serialiser), data lengths aimed at room-1/room/room+1; all histories of length <= 2 (quick) / <= 3 and "
-        "<= 4 over a reduced alphabet (thorough) over a 22-letter alphabet from three starts; non-trivial = distinct history in which at least one "
+        "by the Coq Spec serialiser), data lengths aimed at room-1/room/room+1; all histories of length <= 2 (quick) / <= 3 from three starts, length 4 from the "
+        "short start (22-letter alphabet) and length 4 over a 12-letter alphabet from the other two (thorough); non-trivial = distinct history in which at least one "
         "call changes the size of the field contents (a shift-and-stuff happened) or is refused for lack of room; garbage starts and "
         "out-of-range arguments are fidelity cases")
 EXHAUSTIVE = False
@@ -250,14 +250,17 @@ def gen(rng, tier):
                     ops.append(op)
                 plans.append(("exhaustive-len%d" % k, s0, ops, nt))
         if not quick:
-            for word in itertools.product(SMALL_ALPHABET, repeat=4):
+            # the complete 22-letter alphabet at length 4 from the short field next to a payload (room 3),
+            # the reduced alphabet from the other two starts
+            alpha4 = ALPHABET if s0.n == 14 else SMALL_ALPHABET
+            for word in itertools.product(alpha4, repeat=4):
                 s = s0; ops = []; nt = False
                 for letter in word:
                     op = concretise(rng, s, letter)
                     s, ch = apply_sim(s, op)
                     nt = nt or ch
                     ops.append(op)
-                plans.append(("exhaustive-len4-small", s0, ops, nt))
+                plans.append(("exhaustive-len4" if s0.n == 14 else "exhaustive-len4-small", s0, ops, nt))
     # serialise starts and sources through the Coq serialiser
     reqs, where = [], []
     for pi, (kind, s0, ops, nt) in enumerate(plans):
@@ -428,10 +431,32 @@ def known_match(entry, case, real, model):
     return case.kind == "F13-getter-shape" and entry.get("kind") == "F13-getter-shape"
 
 
+def wf_packet(b):
+    """python mirror of `repr` (only used to classify corpus / replay lines as deciding or fidelity cases)"""
+    if len(b) != 188 or not (b[3] & 0x20) or not (1 <= b[4] <= 183):
+        return False
+    fl = b[5]; off = 6 + 6 * bool(fl & 16) + 6 * bool(fl & 8) + bool(fl & 4)
+    for bit in (2, 1):
+        if fl & bit:
+            if off >= 188: return False
+            off += 1 + b[off]
+    end = 5 + b[4]
+    return off <= end and all(x == 0xFF for x in b[off:end])
+
+
 def case_of_line(line, kind):
     if kind == "F13-getter-shape":
         return Case(line, kind=kind, decides=True, theorem="C03_getters_full_refuted")
-    return Case(line, kind=kind or "replay", decides=not kind.startswith("fidelity"), theorem="C03_history")
+    try:
+        pkt, ops = split_line(line)
+        ok = wf_packet(pkt)
+        for o in ops:
+            if o[0] in (8, 9) and not (0 <= o[1] < PCRMAX): ok = False
+            if o[0] == 13 and not wf_packet(o[1]): ok = False
+    except Exception:
+        ok = False
+    return Case(line, kind=kind or "replay", decides=ok and not kind.startswith("fidelity"),
+                theorem="C03_history" if ok else "Proofs/AFTotal.v (C05)")
 
 
 def search(c, rng):
